@@ -169,7 +169,7 @@ CHECKS.update({
     'C15': dict(
         technique='stream fuzzing with structure-aware generators (Hypothesis: mutations, compression-graph grammar, hostile-but-parsable names) against a running instance in the simulator; invariant + canary oracle',
         text=SIM + 'streams of 1-25 (thorough 40) datagrams incl. 20 % oversized and announcements that repeat a record inside one datagram, gaps from 0 ms to 77 min, from mDNS and legacy ports, IPv4/IPv6, on every socket of a victim that has registered services, '
-             'a browser and a lookup in progress (the application may start more lookups and cancel them as datagrams arrive); no exception may reach the loop, oversized datagrams leave no trace, and canary query/announcement traffic still works afterwards.',
+             'a browser and a lookup in progress (the application may start more lookups and cancel them as datagrams arrive); no exception may reach the loop, oversized datagrams leave no trace, and canary query/announcement traffic still works afterwards (incl. a poller and a peer that repeat one datagram every 400-999 ms: copies a second or more after the last handled one are handled).',
         note='reuses C02\'s generators; an atheris corpus is not wired into this check (the grammar reaches the states fuzzing did not)',
         ref='3/C15'),
 })
@@ -180,7 +180,7 @@ CHECKS.update({
         technique='property-based scenario generation on a simulated multi-host link plus single-datagram-loss fault enumeration (each generated schedule re-run with datagram k dropped); convergence oracle over browser callbacks and lookups',
         text=SIM + '2-5 hosts (joining at the start or just before first use), 1-6 services (one host name each, or one per machine), 1-4 browsers (question type default/QM/QU), withdrawal races against queued answers, register/update/unregister/close at generated times, 0-100 ms '
              'per-receiver delays, optional duplication; each schedule is run without loss and then with one datagram dropped (three targeted k in the quick tier, every k for '
-             'N <= 120 in the thorough tier). After 20 s every active browser must report exactly the registered instances, in a third of the scenarios also 80 or 160 minutes later (and so must a browser started in between, also one started 50 ms after a pointer nobody refreshed ran out in its host\'s cache); lookups from Added callbacks must resolve the advertised data, TXT and port judged against an RFC 6762 s10 view of what was delivered to the looking-up host.',
+             'N <= 120 in the thorough tier). After 20 s every active browser must report exactly the registered instances, in a third of the scenarios also 80 or 160 minutes later (and so must a browser started in between, also one started 50 ms after a pointer nobody refreshed ran out in its host\'s cache, and one on a machine that joins the link at 45-50 % of the pointer life with an empty cache, browses half a minute and leaves); lookups from Added callbacks must resolve the advertised data, TXT and port judged against an RFC 6762 s10 view of what was delivered to the looking-up host.',
         note='operations on one host are sequential and await the returned broadcast task; same-family address updates only; evaluations counts executed runs',
         ref='3/C07'),
 })
